@@ -198,6 +198,36 @@ func (g *Gen) Draw(r *lib.Rng) *big.Int {
 	return v
 }
 
+// Partner returns y = s*k/x mod P for a small signed s (0, +-1, +-2, +-3, +-C):
+// the product x*y/k then lands on 0, on a small value or just below the
+// modulus, which is where a final conditional subtraction decides.  k is 1 for
+// plain representations, R for raw Montgomery operands (x*y/R is what the
+// routine computes) and 1/R for values that the package stores as a*R.
+// It returns nil when x has no inverse.
+func (g *Gen) Partner(r *lib.Rng, x, k *big.Int) *big.Int {
+	xr := Mod(x, g.P)
+	if xr.Sign() == 0 {
+		return nil
+	}
+	var s int64
+	switch r.Intn(6) {
+	case 0:
+		s = 0
+	case 1:
+		s = int64(g.C)
+	case 2:
+		s = int64(g.C) / 2
+	default:
+		s = int64(1 + r.Intn(3))
+	}
+	if r.Bool() {
+		s = -s
+	}
+	y := new(big.Int).ModInverse(xr, g.P)
+	y.Mul(y, k).Mul(y, big.NewInt(s))
+	return y.Mod(y, g.P)
+}
+
 // ---------------------------------------------------------------- aliasing
 
 // Aliasing patterns of a three-operand call z = op(x, y).
